@@ -79,7 +79,8 @@ def _variant_verdict(job):
             importlib.import_module(f'sa.rules.{pid.lower()}').check(sub, model, 'quick')
         except Exception as e:
             return patch, {'applies': True, 'error': f'{type(e).__name__}: {e}'}
-        viol = sorted({i['rule'] for i in sub.instances if i['status'] == 'violated'})
+        known = {k['key'] for k in sub.known['finding'] if k['property'] == pid and k['key']}      # listed findings are not alarms of the variant
+        viol = sorted({i['rule'] for i in sub.instances if i['status'] == 'violated' and i.get('key') not in known})
         unres = sorted({i['rule'] for i in sub.instances if i['status'] == 'unresolved'})
         return patch, {'applies': True, 'violated_rules': viol, 'unresolved_rules': unres}
     finally:
